@@ -418,11 +418,11 @@ fn check_drop(c: &DropCase, cov: &mut Cov) -> CheckResult {
 
 pub fn run(ctx: &mut Ctx) {
     ctx.rule = "user-defined chains with per-chain speed profiles (total run times 0..700 ms, so different subsets finish between the reporter's 250 ms polls), 1..48 chains (bars recycled above 5), n_collect 4..20, n_discard 0..20; MH / Gibbs / HMC / NUTS twins (run vs run_progress, identical seeds), element type x backend in {f32,f64}^2 for HMC and NUTS; run_chain_progress with the receiver dropped before / at step k / never; non-trivial = > 5 chains with >= 2 distinct speeds, a non-f32 combination, or a receiver dropped mid-run; distinct by case fingerprint".into();
-    ctx.assume("termination is observed, not proved: every case runs under a 90 s watchdog in a child process; a timeout is confirmed by re-running the case alone with twice the limit");
+    ctx.assume("termination is observed, not proved: every case runs under a 45 s watchdog in a child process; a timeout is confirmed by re-running the case alone with twice the limit");
     ctx.assume("completion orders are varied through per-chain delays; the OS schedule itself is not owned");
     ctx.use_pool_thread = false;
     ctx.plain_pool_threads = 4;
-    ctx.set_case_timeout(90.0);
+    ctx.set_case_timeout(45.0);
     let t = ctx.tier;
     ctx.section("user-chains", "run_progress on user chains: draws = counter model (what run returns), exact transition count, RunStats = RunStats::from(draws), returns Ok, terminates", t.pick(260, 8_000), 16, user_strategy, check_user);
     ctx.section("sampler-twins", "run_progress vs run of an identically seeded twin (NUTS: shifted by one draw), RunStats from the returned draws, all precision combinations", t.pick(320, 10_000), 16, twin_strategy, check_twin);
